@@ -74,12 +74,23 @@ def carrier_values(ds, carrier):
         return [dy_float(d) if d[1] else int(dy_frac(d)) for d in ds] if len(ds) > 1 else None
     if carrier == 'ndarray':
         return np.array([dy_float(d) for d in ds]) if len(ds) > 1 else None
+    if carrier == 'fxp':
+        # the values arrive as an exact fixed-point object of a wide, finer format
+        nf = max([d[1] for d in ds] + [0]) + 2
+        cs = [d[0] << (nf - d[1]) for d in ds]
+        if max(abs(c) for c in cs) >= (1 << 58):
+            return None
+        from ..common import Fxp as _F
+        return _F(np.array(cs, dtype=np.int64) if len(cs) > 1 else cs[0], True, 60, nf, raw=True)
     raise ValueError(carrier)
 
 
 CFG_ALTS = {'n_word_max': [8, 16, 128], 'max_error': [1e-3, 0.5, 2.0 ** -70], 'rounding': ['around', 'floor'], 'overflow': ['wrap'], 'shifting': ['trunc'],
             'op_input_size': ['best'], 'op_sizing': ['same', 'smallest'], 'const_op_sizing': ['largest'], 'op_method': ['repr'], 'dtype_notation': ['Q'],
             'array_output_type': ['array'], 'array_op_method': ['repr']}
+
+
+C06_OPTS = ({'rounding': 'around'}, {'rounding': 'ceil'}, {'rounding': 'floor', 'overflow': 'wrap'}, {'shifting': 'trunc', 'rounding': 'fix'})
 
 
 def aged_config():
@@ -109,7 +120,7 @@ def judge_config_roundtrip(acc, part):
         acc.outcome('config_roundtrip_ok')
 
 
-def judge(acc, ds, signed_arg, pattern, carrier, part, cfg=False):
+def judge(acc, ds, signed_arg, pattern, carrier, part, cfg=False, opts=None):
     """pattern: dict of given sizes; cfg: the object is built with config= a Config that has a history (aged_config)"""
     ds = [norm(d) for d in ds]
     if any(not is_exact_double(d) for d in ds):
@@ -121,7 +132,7 @@ def judge(acc, ds, signed_arg, pattern, carrier, part, cfg=False):
     signed = True if signed_arg is None else signed_arg
     if not signed and any(d[0] < 0 for d in ds):
         return
-    case = {'part': part, 'vals': [list(d) for d in ds], 'signed': signed_arg, 'pattern': pattern, 'carrier': carrier, 'cfg': cfg}
+    case = {'part': part, 'vals': [list(d) for d in ds], 'signed': signed_arg, 'pattern': pattern, 'carrier': carrier, 'cfg': cfg, 'opts': opts}
     exp = infer(ds, signed, **pattern)
     if exp.n_word > 64 or exp.n_word < 0:
         acc.skipped += 1
@@ -137,12 +148,22 @@ def judge(acc, ds, signed_arg, pattern, carrier, part, cfg=False):
     kw = dict(pattern)
     if signed_arg is not None:
         kw['signed'] = signed_arg
+    if opts:
+        kw.update(opts)                       # rounding / overflow / ... : none of them takes part in the inference of exact dyadic inputs
+        acc.dim('options', '+'.join('%s=%s' % t for t in sorted(opts.items())))
+    src_before = (codes(v), dict(v.status), fmt_of(v)) if carrier == 'fxp' else None
     try:
         if cfg:
             acc.dim('config', 'aged')
             x = Fxp(v, config=aged_config(), **kw)
         else:
             x = Fxp(v, **kw)
+        if carrier == 'fxp':
+            x2 = Fxp(v, **kw)
+            if (codes(v), dict(v.status), fmt_of(v)) != src_before or (fmt_of(x2), codes(x2), flags(x2)) != (fmt_of(x), codes(x), flags(x)):
+                acc.violation('source_changed', case, 'Fxp(<Fxp %s>, %s): the source object changed (%s -> %s) or a second construction from it differs'
+                              % (v.dtype, kw, src_before[1], dict(v.status)), {'part': part, 'aspect': 'fxp_source'})
+                return
         gf = fmt_of(x)
         gc = codes(x)
         fl = flags(x)
@@ -314,6 +335,9 @@ def run_shard(sh):
                     for carrier in ('int', 'float', 'arr1'):
                         judge(acc, [d], sg, pat, carrier, part)
                     judge(acc, [d], sg, pat, 'float', part, True)
+                    judge(acc, [d], sg, pat, 'fxp', part)
+                    for oi, opts in enumerate(C06_OPTS):
+                        judge(acc, [d], sg, pat, ('float', 'int', 'arr1')[oi % 3], part, False, opts)
     elif part == 'c':
         a = ARR_LETTERS[sh['i']]
         for b in ARR_LETTERS:
@@ -404,7 +428,7 @@ def replay(case):
     elif 'floats' in case:
         judge_capped_array(acc, [float.fromhex(h) for h in case['floats']], case['part'])
     else:
-        judge(acc, [tuple(d) for d in case['vals']], case['signed'], case['pattern'], case['carrier'], case['part'], case.get('cfg', False))
+        judge(acc, [tuple(d) for d in case['vals']], case['signed'], case['pattern'], case['carrier'], case['part'], case.get('cfg', False), case.get('opts'))
     return acc.violations
 
 
